@@ -405,29 +405,13 @@ Theorem memattr_target_os_index_refuted :
 Proof. exists [ORegister (nm [102]) 1]. vm_compute. repeat split. discriminate. Qed.
 Print Assumptions memattr_target_os_index_refuted.
 
-(* hwloc_topology_get_default_nodeset, second loop: "already taken?" tests bit i
-   (the position in the os_index-sorted array) instead of nodes[i]->os_index.
-   Two nodes with os_index 1 and 2 (node 0 restricted away), the second of
-   another subtype: the code returns {1}, the documented algorithm {1,2}; PU 2
-   loses its only local node.  Replayed on the C code:
-   corpus/c14/08-default-nodeset-os-index.case. *)
+(* regression of a fixed defect (a3b32cd): the second loop of
+   hwloc_topology_get_default_nodeset tested bit <array position> instead of
+   nodes[i]->os_index; with NUMA os_indexes 1 and 2 and the second node of another
+   subtype it returned {1}.  corpus/c14/08-default-nodeset-os-index.case *)
 Definition ex_topo_dn := Topo (bs_of_N 6)
   [Obj HWLOC_OBJ_MACHINE 1 0 true (bs_of_N 6) 0 0;
    Obj HWLOC_OBJ_PU 5 1 true (bs_of_N 2) 0 0; Obj HWLOC_OBJ_PU 8 2 true (bs_of_N 4) 0 0;
    Obj HWLOC_OBJ_NUMANODE 7 1 true (bs_of_N 2) 1024 0; Obj HWLOC_OBJ_NUMANODE 10 2 true (bs_of_N 4) 1024 1].
-Theorem default_nodeset_array_index_refuted :
-  exists s, default_nodeset s 0 = Ok (bs_of_N 2) /\ default_nodeset_doc s 0 = Ok (bs_of_N 6).
-Proof. exists (init_state ex_topo_dn). vm_compute. split; reflexivity. Qed.
-Print Assumptions default_nodeset_array_index_refuted.
-
-(* ... and they agree whenever NUMA os_indexes are 0,1,2,... *)
-Theorem default_nodeset_array_index_partial :
-  forall s flags,
-  (forall e, In e (number_from 0 (sort_by_os (numa_nodes (m_topo s)))) -> fst e = o_os (snd e)) ->
-  default_nodeset s flags = default_nodeset_doc s flags.
-Proof. exact default_nodeset_index_ok. Qed.
-Print Assumptions default_nodeset_array_index_partial.
-
-Example ex_default_nodeset_partial_hyp :
-  forall e, In e (number_from 0 (sort_by_os (numa_nodes ex_topo))) -> fst e = o_os (snd e).
-Proof. intros e H. vm_compute in H. intuition (subst; reflexivity). Qed.
+Example ex_regress_default_nodeset_os_index : default_nodeset (init_state ex_topo_dn) 0 = Ok (bs_of_N 6).
+Proof. vm_compute. reflexivity. Qed.
